@@ -1,6 +1,7 @@
 """C01 — HLSL export preserves the meaning of every accepted program (structural necessary conditions).
 The same rule functions are reused by C02 for the MSL exporter."""
 import facts as F
+import interp as I
 import thirflow as TF
 from facts import short, where
 
@@ -130,6 +131,82 @@ def typer_op_tables(f):
         # inner matches (unary Plus/Minus) are separate Match nodes over the same adt; the loop above visits them too
     return bt, ut, pb, pu
 
+def typer_op_tables_eval(f):
+    """ast::BinOp / ast::UnaryOp -> IntrinsicOp read off the nodes that parse_expr_binop / parse_expr_unaryop build for
+    simple operands (elabmodel.py). None when not readable."""
+    import elabmodel as EM
+    try:
+        el = EM.Elab(f)
+    except Exception:
+        return None
+    if not el.binop or not el.unop:
+        return None
+    bt, ut = {}, {}
+    binops = f.variants("ast_expressions::BinOp", "rssl_ast") or []
+    unops = f.variants("ast_expressions::UnaryOp", "rssl_ast") or []
+    cands = [("Int32", 0, "Lvalue"), ("Bool", 0, "Lvalue"), ("Float32", 0, "Lvalue")]
+    for op in binops:
+        for t in cands:
+            r = el.run_binop(op, el.ety(*t), el.ety(t[0], 0, "Rvalue"))
+            if r[0] == "unreadable":
+                return None
+            if r[0] == "Ok" and isinstance(r[1], I.Enum) and r[1].variant == "IntrinsicOp":
+                bt.setdefault(op, set()).add(r[1].fields["0"].variant)
+    for op in unops:
+        for t in cands:
+            r = el.run_unop(op, el.ety(*t))
+            if r[0] == "unreadable":
+                return None
+            if r[0] == "Ok" and isinstance(r[1], I.Enum) and r[1].variant == "IntrinsicOp":
+                ut.setdefault(op, set()).add(r[1].fields["0"].variant)
+    return bt, ut
+
+
+def exporter_op_table_eval(f, crate):
+    """IntrinsicOp -> (form, ast operator) read off the node generate_intrinsic_op builds (generate_expression scripted:
+    operand k becomes the identifier `argk`); also checks that the operands are passed on in order. None when not readable."""
+    g = f.fn("generate_intrinsic_op", crate)
+    if not g:
+        return None
+    ops = f.variants("intrinsics::IntrinsicOp", "rssl_ir") or []
+    tab, unmapped, order_bad = {}, set(), []
+
+    def gen_expr(a):
+        e = a[0].get() if isinstance(a[0], I.Ref) else a[0]
+        return I.Enum("Result", "Ok", {"0": I.Enum("Expression", "Identifier", {"0": e.fields.get("0")})})
+    ip = I.Interp(f, max_depth=6, extern={"generate_expression": gen_expr})
+    for op in ops:
+        for n_args in (1, 2):
+            args = [I.Enum("Expression", "Variable", {"0": "arg%d" % k}) for k in range(n_args)]
+            try:
+                r = ip.apply(g, [I.Enum("IntrinsicOp", op), args, I.Opaque("context")])
+            except I.Unknown as e:
+                if "panicking" in str(e):
+                    continue
+                return None
+            if not (isinstance(r, I.Enum) and r.variant == "Ok"):
+                continue
+            node = r.fields["0"]
+            if node.variant == "UnaryOperation":
+                tab[op] = ("Unary", "UnaryOp", node.fields["0"].variant)
+                kids = [node.fields["1"]]
+            elif node.variant == "BinaryOperation":
+                tab[op] = ("Binary", "BinOp", node.fields["0"].variant)
+                kids = [node.fields["1"], node.fields["2"]]
+            else:
+                continue
+            names = []
+            for kd in kids:
+                kd = kd.fields.get("0") if isinstance(kd, I.Enum) and kd.adt == "Box" else kd
+                nd = kd.fields.get("node") if isinstance(kd, I.Enum) and kd.adt == "Located" else kd
+                names.append(nd.fields.get("0") if isinstance(nd, I.Enum) else None)
+            if names != ["arg%d" % k for k in range(len(kids))]:
+                order_bad.append((op, names))
+            break
+        if op not in tab:
+            unmapped.add(op)
+    return g, tab, unmapped, order_bad
+
 
 def exporter_op_table(f, crate):
     g = f.fn("generate_intrinsic_op", crate)
@@ -154,7 +231,15 @@ def exporter_op_table(f, crate):
 def rule_op(chk, crate, P):
     f = chk.facts
     bt, ut, pb, pu = typer_op_tables(f)
+    ev_t = typer_op_tables_eval(f)
+    if ev_t is not None:
+        bt, ut = ev_t           # read off the built nodes; the arm-shape extraction above is the fallback
     g, et, unmapped = exporter_op_table(f, crate)
+    ev_e = exporter_op_table_eval(f, crate)
+    if ev_e is not None:
+        g, et, unmapped, order_bad = ev_e
+        chk.ob(P + ".op/operand-order", not order_bad, "every operator node receives its operands in order" if not order_bad else
+               "IntrinsicOp::%s is printed with its operands as %s" % order_bad[0], where(g))
     if not chk.anchor(P + ".anchor/%s/generate_intrinsic_op" % crate, g, "generate_intrinsic_op"):
         return
     chk.anchor(P + ".anchor/typer-op-tables", pb and pu, "typer operator tables")
